@@ -54,6 +54,7 @@ var c10Defs = []string{
 	"grow = (a, n) -> {\ni = 0\nwhile i < n {\na = a + [i]\ni = i + 1\n}\na\n}",
 	"twice = (a) -> [a + [1], a + [2], a]",
 	"window = (a, i, n) -> a[i:#a][0:n]",
+	"keepnums = (n) -> {\na = toa(n)\nb = toa(n + 1)\nc = toa(n * 100)\nd = toa(0 - n)\n[a, b, c, d, a + b]\n}",
 	"fork = (a, d) -> if d <= 0 {\n[a]\n} else {\nfork(a + [0], d - 1) + fork(a + [1], d - 1)\n}",
 	"joinall = (a) -> {\nr = \"\"\nfor e <- elems(a) {\nr = r + toa(e) + \";\"\n}\nr\n}",
 }
@@ -195,7 +196,17 @@ func (C10) Run(tp *tape.Tape) core.Result {
 			a := pick('a')
 			st := pick('s')
 			v := fresh()
-			switch tp.Draw(31) {
+			switch tp.Draw(32) {
+			case 31: // renderings of several numbers made and kept within one statement
+				n := 10 + tp.Draw(5000)
+				if submit(fmt.Sprintf("%s = keepnums(%d)", v, n), v, 'a', false) {
+					goto done
+				}
+				if want := fmt.Sprintf("[%d, %d, %d, %d, %d%d]", n, n+1, n*100, -n, n, n+1); snap[v] != want {
+					r.Violation = &core.Violation{Clause: "rendering-changed", Detail: fmt.Sprintf("keepnums(%d) gave %s, want %s", n, snap[v], want), History: h}
+					goto done
+				}
+				r.Inc("number_renderings_kept_within_one_statement", 1)
 			case 29, 30: // take a prefix of a whole-range slice (the drop-then-take idiom with nothing dropped), directly and through a function
 				l := length(a)
 				k := tp.Draw(l + 1)
